@@ -238,11 +238,17 @@ def run(ctx):
         if not p_.startswith("builder::pipeline::Pipeline::") or "{closure" in p_:
             continue
         Tp = M.Terms(f_)
-        clos = [prog.fns[c] for c in M.local_callees(prog, f_) if "{closure" in c and c.startswith(p_ + "::")]
-        okc = any([M.callee_str(t["f"]) for _, t in c.calls()] == ["builder::exec::Exec::detached"] for c in clos)
-        if not okc:
+        def detaching(fterm):
+            """the mapped function is Exec::detached itself, or a closure that does nothing but call it"""
+            fterm = M.noref(fterm)
+            if fterm == ("fnitem", "builder::exec::Exec::detached"):
+                return True
+            if fterm[0] == "agg" and fterm[1][0] == "closure" and fterm[1][1] in prog.fns:
+                return [M.callee_str(t["f"]) for _, t in prog.fns[fterm[1][1]].calls()] == ["builder::exec::Exec::detached"]
+            return False
+        mp = [(b_, t_) for b_, t_ in f_.calls_to(lambda c: M.callee_str(c) == "std::iter::Iterator::map") if detaching(Tp.operand(t_["args"][1]))]
+        if not mp:
             continue
-        mp = f_.calls_to(lambda c: M.callee_str(c) == "std::iter::Iterator::map")
         whole = False
         if len(mp) == 1:
             src_ = M.noref(M.strip(Tp.operand(mp[0][1]["args"][0]), also=("<std::vec::Vec<T, A> as std::iter::IntoIterator>::into_iter", "std::iter::IntoIterator::into_iter")))
